@@ -187,3 +187,5 @@ def check(ctx):
     sync_wrapper_forwarding(ctx)
     wait_success_evidence(ctx, "may::sync::sync_flag::SyncFlag::wait_timeout_impl", r"may::sync::sync_flag::SyncFlag::is_fired", "flag/true-only-with-evidence", "the flag was seen fired")
     wait_success_evidence(ctx, "may::sync::semphore::Semphore::wait_timeout_impl", r"may::sync::semphore::Semphore::try_wait", "sem/true-only-with-evidence", "try_wait took a permit")
+    shared.handoff_not_recursive(ctx, "may::sync::semphore")
+    shared.handoff_not_recursive(ctx, "may::sync::sync_flag")
